@@ -2,12 +2,14 @@
  *
  * Postconditions are written from RFC 1055 / the property statement via the
  * reference macros of spec/slip.h, over the abstract streams of
- * stubs/rfc1055_io.h:
- *   source stream  g_sl_src[0 .. g_sl_src_len), next position g_sl_src_pos
- *   sink stream    next position g_sl_snk_pos; "the sink received octet v at
- *                  absolute position p" is stated for the one observed
- *                  position g_sl_obs (arbitrary, hence for every position):
- *                  g_sl_snk_val == v once g_sl_snk_pos has passed g_sl_obs.
+ * stubs/rfc1055_io.h (read its head comment first):
+ *   source   array mode: an arbitrary stream g_sl_src[0 .. g_sl_src_len);
+ *            generator mode: the reference encoding of a payload, possibly
+ *            behind garbage and delimiters, produced octet by octet;
+ *   sink     the octet received at the one observed position g_sl_obs
+ *            (arbitrary, hence every position) is g_sl_snk_val; with the
+ *            acceptor on, every received octet is compared with the reference
+ *            encoding of a payload.
  * Sink positions are compared relative to the position at entry (modulo 2^64)
  * so that no precondition on them is needed.
  *
@@ -20,17 +22,6 @@
 #define CONTRACTS_RFC1055_H
 #include "spec/slip.h"
 
-#ifndef SL_NMAX
-#define SL_NMAX 16
-#endif
-
-extern const unsigned char *g_sl_src;
-extern size_t g_sl_src_len, g_sl_src_pos, g_sl_src_nneg;
-extern int g_sl_src_err;
-extern size_t g_sl_snk_pos, g_sl_obs, g_sl_snk_nneg, g_sl_snk_budget;
-extern unsigned char g_sl_snk_val;
-extern int g_sl_snk_err;
-
 #define SL_SOF(flags) (((flags) & RFC1055_WITH_SOF) != 0)
 #define SL_STATE_OK(s) ((s) == RFC1055_SEARCH_FOR_START || (s) == RFC1055_SEARCH_FOR_END || (s) == RFC1055_NORMAL)
 #define SL_KIND_OK(k) ((k) == DATA_KIND_OCTET || (k) == DATA_KIND_CHUNK)
@@ -42,26 +33,64 @@ extern int g_sl_snk_err;
   && IMPLIES((s)->kind == DATA_KIND_OCTET, (s)->sink.octet == sl_octet_sink) \
   && IMPLIES((s)->kind == DATA_KIND_CHUNK, (s)->sink.chunk == sl_chunk_sink) \
   && (s)->driver == SL_SNK_DRIVER)
-/* the source stream is a readable array and the position is inside it */
-#define SL_SRC_WF (g_sl_src_pos <= g_sl_src_len && __CPROVER_r_ok(g_sl_src, g_sl_src_len))
+
+/* the generator's cursor is consistent */
+#define SL_GN_WF (__CPROVER_r_ok(g_gn_pay, g_gn_n) && g_gn_g < SIZE_MAX - 2 \
+  && g_gn_c <= SL_GN_PRE && g_gn_i <= g_gn_n && g_gn_s <= 1 \
+  && IMPLIES(g_gn_s == 1, g_gn_i < g_gn_n && SLIP_SPECIAL(g_gn_pay[SL_CLI(g_gn_i, g_gn_n)])) \
+  && IMPLIES(g_gn_c < SL_GN_PRE, g_gn_i == 0 && g_gn_s == 0 && !g_gn_done) \
+  && IMPLIES(g_gn_done, g_gn_i == g_gn_n && g_gn_s == 0))
+/* the source: an array with the position inside it, or a consistent generator */
+#define SL_SRC_WF (g_gn_on ? SL_GN_WF : (g_sl_src_pos <= g_sl_src_len && __CPROVER_r_ok(g_sl_src, g_sl_src_len)))
+/* the acceptor's cursor is consistent */
+#define SL_ACC_WF IMPLIES(g_ac_on, __CPROVER_r_ok(g_ac_pay, g_ac_n) && g_ac_i <= g_ac_n && g_ac_s <= 1 \
+  && IMPLIES(g_ac_s == 1, g_ac_i < g_ac_n && SLIP_SPECIAL(g_ac_pay[SL_CLI(g_ac_i, g_ac_n)])))
+
 /* p is not (part of) the ghost state */
-#define SL_SEP(p) (!__CPROVER_same_object((p), &g_sl_src) && !__CPROVER_same_object((p), &g_sl_src_len) \
-  && !__CPROVER_same_object((p), &g_sl_src_pos) && !__CPROVER_same_object((p), &g_sl_src_nneg) \
-  && !__CPROVER_same_object((p), &g_sl_src_err) && !__CPROVER_same_object((p), &g_sl_snk_pos) \
-  && !__CPROVER_same_object((p), &g_sl_obs) && !__CPROVER_same_object((p), &g_sl_snk_nneg) \
-  && !__CPROVER_same_object((p), &g_sl_snk_budget) && !__CPROVER_same_object((p), &g_sl_snk_val) \
-  && !__CPROVER_same_object((p), &g_sl_snk_err) && !__CPROVER_same_object((p), g_sl_src))
+#define SL_SEP1(p, g) (!__CPROVER_same_object((p), &(g)))
+#define SL_SEP(p) (SL_SEP1(p, g_sl_src) && SL_SEP1(p, g_sl_src_len) && SL_SEP1(p, g_sl_src_pos) && SL_SEP1(p, g_sl_src_nneg) \
+  && SL_SEP1(p, g_sl_src_err) && SL_SEP1(p, g_sl_src_last) \
+  && SL_SEP1(p, g_gn_on) && SL_SEP1(p, g_gn_skip) && SL_SEP1(p, g_gn_start) && SL_SEP1(p, g_gn_done) && SL_SEP1(p, g_gn_pay) \
+  && SL_SEP1(p, g_gn_n) && SL_SEP1(p, g_gn_g) && SL_SEP1(p, g_gn_c) && SL_SEP1(p, g_gn_i) && SL_SEP1(p, g_gn_s) \
+  && SL_SEP1(p, g_sl_snk_pos) && SL_SEP1(p, g_sl_obs) && SL_SEP1(p, g_sl_snk_nneg) && SL_SEP1(p, g_sl_snk_budget) \
+  && SL_SEP1(p, g_sl_snk_val) && SL_SEP1(p, g_sl_snk_err) \
+  && SL_SEP1(p, g_ac_on) && SL_SEP1(p, g_ac_sof) && SL_SEP1(p, g_ac_closed) && SL_SEP1(p, g_ac_bad) && SL_SEP1(p, g_ac_pay) \
+  && SL_SEP1(p, g_ac_n) && SL_SEP1(p, g_ac_i) && SL_SEP1(p, g_ac_s) \
+  && SL_SEP1(p, g_k) && SL_SEP1(p, g_j) && SL_SEP1(p, g_a) \
+  && IMPLIES(!g_gn_on, !__CPROVER_same_object((p), g_sl_src)) && IMPLIES(g_gn_on, !__CPROVER_same_object((p), g_gn_pay)))
 
-#define SL_SRC_ASSIGNS g_sl_src_pos, g_sl_src_err, g_sl_src_nneg
+#define SL_SRC_ASSIGNS g_sl_src_pos, g_sl_src_err, g_sl_src_nneg, g_sl_src_last
+#define SL_GEN_ASSIGNS g_gn_c, g_gn_i, g_gn_s, g_gn_done
 #define SL_SNK_ASSIGNS g_sl_snk_pos, g_sl_snk_val, g_sl_snk_err, g_sl_snk_nneg, g_sl_snk_budget
+#define SL_ACC_ASSIGNS g_ac_sof, g_ac_closed, g_ac_bad, g_ac_i, g_ac_s
 
-/* octet of the source stream at position p (clamped: never reads outside) */
 #define SL_CLI(i, n) ((size_t)(i) < (size_t)(n) ? (size_t)(i) : (size_t)0)
-#define SL_S(p) (g_sl_src[SL_CLI((p), g_sl_src_len)])
+/* "octet p of the array-mode source stream exists and is v" (guarded read) */
+#define SL_S_IS(p, v) ((size_t)(p) < g_sl_src_len && g_sl_src[(size_t)(p)] == (v))
+#define SL_S_PLAIN(p) ((size_t)(p) < g_sl_src_len && !SLIP_SPECIAL(g_sl_src[(size_t)(p)]))
+#define SL_S_VALID2(p) ((size_t)(p) < g_sl_src_len && SLIP_ESC_VALID(g_sl_src[(size_t)(p)]))
+#define SL_S_INVALID2(p) ((size_t)(p) < g_sl_src_len && !SLIP_ESC_VALID(g_sl_src[(size_t)(p)]))
 /* sink position relative to q0 */
 #define SL_REL(p, q0) ((size_t)((size_t)(p) - (size_t)(q0)))
 
-/* ---- what happened to the sink, relative to the pre-state ---- */
+/* ---- source, relative to the pre-state ---- */
+#define SL_SRC_P0 __CPROVER_old(g_sl_src_pos)
+#define SL_SRC_TOOK ((size_t)(g_sl_src_pos - SL_SRC_P0))
+#define SL_SRC_ERR_O(ret) ((ret) == g_sl_src_err && g_sl_src_nneg == (size_t)(__CPROVER_old(g_sl_src_nneg) + 1u))
+#define SL_SRC_NOERR_O (g_sl_src_nneg == __CPROVER_old(g_sl_src_nneg) && g_sl_src_err == __CPROVER_old(g_sl_src_err))
+#define SL_GEN_SAME_O (g_gn_c == __CPROVER_old(g_gn_c) && g_gn_i == __CPROVER_old(g_gn_i) && g_gn_s == __CPROVER_old(g_gn_s) \
+  && g_gn_done == __CPROVER_old(g_gn_done))
+/* generator at an image boundary of the payload phase (pre-state) */
+#define SL_GEN_AT_PAYLOAD_O (g_gn_on && __CPROVER_old(g_gn_c) == SL_GN_PRE && !__CPROVER_old(g_gn_done) && __CPROVER_old(g_gn_s) == 0)
+#define SL_GN_PAY(i) (g_gn_pay[SL_CLI((i), g_gn_n)])
+/* an upper bound of the octets the generator can still deliver; every
+ * delivered octet lowers it by at least one */
+#define SL_GEN_LEFT ((SL_GN_PRE - g_gn_c) + 2 * (g_gn_n - g_gn_i) - g_gn_s + (g_gn_done ? (size_t)0 : (size_t)1))
+#define SL_GEN_LEFT_O ((SL_GN_PRE - __CPROVER_old(g_gn_c)) + 2 * (g_gn_n - __CPROVER_old(g_gn_i)) - __CPROVER_old(g_gn_s) \
+  + (__CPROVER_old(g_gn_done) ? (size_t)0 : (size_t)1))
+#define SL_GEN_PROGRESS_O IMPLIES(g_gn_on, SL_GEN_LEFT + SL_SRC_TOOK <= SL_GEN_LEFT_O)
+
+/* ---- sink, relative to the pre-state ---- */
 #define SL_SNK_UNTOUCHED_O (g_sl_snk_pos == __CPROVER_old(g_sl_snk_pos) && g_sl_snk_val == __CPROVER_old(g_sl_snk_val) \
   && g_sl_snk_err == __CPROVER_old(g_sl_snk_err) && g_sl_snk_nneg == __CPROVER_old(g_sl_snk_nneg) \
   && g_sl_snk_budget == __CPROVER_old(g_sl_snk_budget))
@@ -70,32 +99,38 @@ extern int g_sl_snk_err;
   && g_sl_snk_val == (g_sl_obs == __CPROVER_old(g_sl_snk_pos) ? (unsigned char)(v) : __CPROVER_old(g_sl_snk_val)))
 /* a negative return value ret is the sink driver's, returned unchanged */
 #define SL_SNK_ERR_O(ret) ((ret) == g_sl_snk_err && g_sl_snk_nneg > __CPROVER_old(g_sl_snk_nneg))
-#define SL_SRC_ERR_O(ret) ((ret) == g_sl_src_err && g_sl_src_nneg == (size_t)(__CPROVER_old(g_sl_src_nneg) + 1u))
-#define SL_SRC_NOERR_O (g_sl_src_nneg == __CPROVER_old(g_sl_src_nneg) && g_sl_src_err == __CPROVER_old(g_sl_src_err))
+#define SL_SNK_MONO_O (g_sl_snk_nneg >= __CPROVER_old(g_sl_snk_nneg) && g_sl_snk_budget <= __CPROVER_old(g_sl_snk_budget))
+#define SL_ACC_SAME_O (g_ac_sof == __CPROVER_old(g_ac_sof) && g_ac_closed == __CPROVER_old(g_ac_closed) \
+  && g_ac_bad == __CPROVER_old(g_ac_bad) && g_ac_i == __CPROVER_old(g_ac_i) && g_ac_s == __CPROVER_old(g_ac_s))
+/* acceptor (pre-state): on, nothing wrong so far, at an image boundary inside the frame */
+#define SL_ACC_AT_BOUNDARY_O (g_ac_on && !__CPROVER_old(g_ac_bad) && !__CPROVER_old(g_ac_closed) && !__CPROVER_old(g_ac_sof) \
+  && __CPROVER_old(g_ac_s) == 0)
+#define SL_AC_PAY(i) (g_ac_pay[SL_CLI((i), g_ac_n)])
 
 /* ------------------------------------------------------------------------ */
 /* The two single-octet endpoint functions of src/endpoints/core.c that
- * rfc1055.c calls directly, over the stub drivers of stubs/rfc1055_io.h
- * (enforced here by targets of their own; the frame loops are checked against
- * these contracts).  One driver call: 1 = one octet moved, negative = the
- * driver's value, nothing moved. */
+ * rfc1055.c calls directly, over the stub drivers (enforced here by targets
+ * of their own; the frame loops are checked against these contracts).  One
+ * driver call: 1 = one octet moved, negative = the driver's value, nothing
+ * moved.  source_get_octet: array-mode source; sink_put_octet: acceptor off
+ * (the modes in which the frame loops call them directly). */
 int source_get_octet(Source *source, void *data)
-__CPROVER_requires(SL_SOURCE_OK(source) && SL_SRC_WF)
+__CPROVER_requires(SL_SOURCE_OK(source) && !g_gn_on && SL_SRC_WF)
 __CPROVER_requires(__CPROVER_w_ok(data, 1) && SL_SEP(data) && !__CPROVER_same_object(data, source))
 __CPROVER_assigns(SL_SRC_ASSIGNS, __CPROVER_object_upto(data, 1))
 __CPROVER_ensures(__CPROVER_return_value == 1 || __CPROVER_return_value < 0)
 __CPROVER_ensures(IMPLIES(__CPROVER_return_value == 1,
-    __CPROVER_old(g_sl_src_pos) < g_sl_src_len && g_sl_src_pos == __CPROVER_old(g_sl_src_pos) + 1
-    && *(unsigned char *)data == SL_S(__CPROVER_old(g_sl_src_pos)) && SL_SRC_NOERR_O))
+    g_sl_src_pos == SL_SRC_P0 + 1 && SL_S_IS(SL_SRC_P0, *(unsigned char *)data)
+    && g_sl_src_last == *(unsigned char *)data && SL_SRC_NOERR_O))
 __CPROVER_ensures(IMPLIES(__CPROVER_return_value < 0,
-    g_sl_src_pos == __CPROVER_old(g_sl_src_pos) && SL_SRC_ERR_O(__CPROVER_return_value)))
+    g_sl_src_pos == SL_SRC_P0 && g_sl_src_last == __CPROVER_old(g_sl_src_last) && SL_SRC_ERR_O(__CPROVER_return_value)))
 /* the end of the stream is reported as a failure (-ENODATA unless the driver
  * fails otherwise) */
-__CPROVER_ensures(IMPLIES(__CPROVER_old(g_sl_src_pos) == g_sl_src_len, __CPROVER_return_value < 0))
+__CPROVER_ensures(IMPLIES(SL_SRC_P0 == g_sl_src_len, __CPROVER_return_value < 0))
 ;
 
 int sink_put_octet(Sink *sink, const unsigned char data)
-__CPROVER_requires(SL_SINK_OK(sink))
+__CPROVER_requires(SL_SINK_OK(sink) && !g_ac_on)
 __CPROVER_assigns(SL_SNK_ASSIGNS)
 __CPROVER_ensures(__CPROVER_return_value == 1 || __CPROVER_return_value < 0)
 __CPROVER_ensures(IMPLIES(__CPROVER_return_value == 1,
@@ -106,6 +141,8 @@ __CPROVER_ensures(IMPLIES(__CPROVER_return_value < 0,
     && __CPROVER_return_value == g_sl_snk_err && g_sl_snk_nneg == (size_t)(__CPROVER_old(g_sl_snk_nneg) + 1u)
     && g_sl_snk_nneg > __CPROVER_old(g_sl_snk_nneg) && g_sl_snk_budget <= __CPROVER_old(g_sl_snk_budget)))
 ;
+
+/* ------------------------------------------------------------------------ */
 
 /* context set-up: classic mode starts inside a frame (NORMAL), start-of-frame
  * mode waits for the start delimiter */
@@ -118,35 +155,44 @@ __CPROVER_ensures(ctx->state == (SL_SOF(flags) ? RFC1055_SEARCH_FOR_START : RFC1
 
 /* open: in start-of-frame mode exactly one END, nothing in classic mode */
 static inline int rfc1055_open(const RFC1055Context *ctx, Sink *sink)
-__CPROVER_requires(__CPROVER_r_ok(ctx, sizeof(RFC1055Context)) && SL_SINK_OK(sink))
-__CPROVER_assigns(SL_SNK_ASSIGNS)
-__CPROVER_ensures(__CPROVER_return_value <= 0)
-__CPROVER_ensures(IMPLIES(!SL_SOF(ctx->flags), __CPROVER_return_value == 0 && SL_SNK_UNTOUCHED_O))
+__CPROVER_requires(__CPROVER_r_ok(ctx, sizeof(RFC1055Context)) && SL_SINK_OK(sink) && SL_ACC_WF)
+__CPROVER_assigns(SL_SNK_ASSIGNS, SL_ACC_ASSIGNS)
+__CPROVER_ensures(__CPROVER_return_value <= 0 && SL_SNK_MONO_O)
+__CPROVER_ensures(IMPLIES(!SL_SOF(ctx->flags), __CPROVER_return_value == 0 && SL_SNK_UNTOUCHED_O && SL_ACC_SAME_O))
 __CPROVER_ensures(IMPLIES(SL_SOF(ctx->flags) && __CPROVER_return_value == 0,
     SL_SNK_GOT1_O(SLIP_END) && g_sl_snk_nneg == __CPROVER_old(g_sl_snk_nneg)))
 __CPROVER_ensures(IMPLIES(__CPROVER_return_value < 0,
     SL_SNK_ERR_O(__CPROVER_return_value) && g_sl_snk_pos == __CPROVER_old(g_sl_snk_pos)
-    && g_sl_snk_val == __CPROVER_old(g_sl_snk_val)))
+    && g_sl_snk_val == __CPROVER_old(g_sl_snk_val) && SL_ACC_SAME_O))
+/* acceptor: the start delimiter it waits for */
+__CPROVER_ensures(IMPLIES(g_ac_on && SL_SOF(ctx->flags) && __CPROVER_return_value == 0
+    && __CPROVER_old(g_ac_sof) && !__CPROVER_old(g_ac_bad) && !__CPROVER_old(g_ac_closed),
+    !g_ac_sof && !g_ac_bad && !g_ac_closed && g_ac_i == __CPROVER_old(g_ac_i) && g_ac_s == __CPROVER_old(g_ac_s)))
+__CPROVER_ensures(IMPLIES(!g_ac_on, SL_ACC_SAME_O))
 ;
 
 /* close: exactly one END */
 static inline int rfc1055_close(Sink *sink)
-__CPROVER_requires(SL_SINK_OK(sink))
-__CPROVER_assigns(SL_SNK_ASSIGNS)
-__CPROVER_ensures(__CPROVER_return_value <= 0)
+__CPROVER_requires(SL_SINK_OK(sink) && SL_ACC_WF)
+__CPROVER_assigns(SL_SNK_ASSIGNS, SL_ACC_ASSIGNS)
+__CPROVER_ensures(__CPROVER_return_value <= 0 && SL_SNK_MONO_O)
 __CPROVER_ensures(IMPLIES(__CPROVER_return_value == 0,
     SL_SNK_GOT1_O(SLIP_END) && g_sl_snk_nneg == __CPROVER_old(g_sl_snk_nneg)))
 __CPROVER_ensures(IMPLIES(__CPROVER_return_value < 0,
     SL_SNK_ERR_O(__CPROVER_return_value) && g_sl_snk_pos == __CPROVER_old(g_sl_snk_pos)
-    && g_sl_snk_val == __CPROVER_old(g_sl_snk_val)))
+    && g_sl_snk_val == __CPROVER_old(g_sl_snk_val) && SL_ACC_SAME_O))
+/* acceptor: the closing delimiter at an image boundary */
+__CPROVER_ensures(IMPLIES(SL_ACC_AT_BOUNDARY_O && __CPROVER_return_value == 0,
+    g_ac_closed && !g_ac_bad && !g_ac_sof && g_ac_i == __CPROVER_old(g_ac_i) && g_ac_s == 0))
+__CPROVER_ensures(IMPLIES(!g_ac_on, SL_ACC_SAME_O))
 ;
 
 /* encode_octet: the sink receives exactly the image esc(data) -- one octet,
  * or ESC ESC_END / ESC ESC_ESC -- and never an END; on a sink error (returned
  * unchanged) a proper prefix of the image */
 static inline int rfc1055_encode_octet(Sink *sink, unsigned char data)
-__CPROVER_requires(SL_SINK_OK(sink))
-__CPROVER_assigns(SL_SNK_ASSIGNS)
+__CPROVER_requires(SL_SINK_OK(sink) && SL_ACC_WF)
+__CPROVER_assigns(SL_SNK_ASSIGNS, SL_ACC_ASSIGNS)
 /* what has been accepted is a prefix of the image, in order */
 __CPROVER_ensures(SL_REL(g_sl_snk_pos, __CPROVER_old(g_sl_snk_pos)) <= SLIP_ESCLEN(data))
 __CPROVER_ensures(IMPLIES(SL_REL(g_sl_obs, __CPROVER_old(g_sl_snk_pos)) < SL_REL(g_sl_snk_pos, __CPROVER_old(g_sl_snk_pos)),
@@ -160,54 +206,77 @@ __CPROVER_ensures(IMPLIES(__CPROVER_return_value >= 0,
 __CPROVER_ensures(IMPLIES(__CPROVER_return_value < 0,
     SL_SNK_ERR_O(__CPROVER_return_value)
     && SL_REL(g_sl_snk_pos, __CPROVER_old(g_sl_snk_pos)) < SLIP_ESCLEN(data)))
-__CPROVER_ensures(g_sl_snk_budget <= __CPROVER_old(g_sl_snk_budget) && g_sl_snk_nneg >= __CPROVER_old(g_sl_snk_nneg))
+__CPROVER_ensures(SL_SNK_MONO_O)
+/* acceptor: the image of the payload octet it expects next */
+__CPROVER_ensures(IMPLIES(SL_ACC_AT_BOUNDARY_O && __CPROVER_old(g_ac_i) < g_ac_n && data == SL_AC_PAY(__CPROVER_old(g_ac_i)),
+    !g_ac_bad && !g_ac_closed && !g_ac_sof
+    && IMPLIES(__CPROVER_return_value >= 0, g_ac_i == __CPROVER_old(g_ac_i) + 1 && g_ac_s == 0)
+    && IMPLIES(__CPROVER_return_value < 0, g_ac_i == __CPROVER_old(g_ac_i) && g_ac_s <= 1)))
+__CPROVER_ensures(IMPLIES(!g_ac_on, SL_ACC_SAME_O))
 ;
 
-/* decode_octet: with p the source position at entry,
- *   source stream[p] == END                 returns 0 (end of frame), 1 octet consumed
- *   stream[p] plain                          returns 1, *data == stream[p], 1 consumed
- *   stream[p] == ESC, stream[p+1] valid      returns 2, *data == the escaped octet, 2 consumed
- *   stream[p] == ESC, stream[p+1] invalid    returns -EILSEQ, *data == stream[p+1], 2 consumed
- *   the source driver fails                  its value unchanged, *data == 0, the octets
- *                                            delivered before (none, or the ESC) consumed */
+/* decode_octet.  Whatever the source delivers (k = number of octets taken):
+ *   END                        returns 0 (end of frame), k = 1
+ *   a plain octet              returns 1, *data == that octet, k = 1
+ *   ESC, then ESC_END/ESC_ESC  returns 2, *data == END / ESC, k = 2
+ *   ESC, then anything else    returns -EILSEQ, *data == the offending octet, k = 2
+ *   the source driver fails    its value unchanged, *data == 0, k = 0, or k = 1 after an ESC */
 static inline int rfc1055_decode_octet(Source *source, unsigned char *data)
 __CPROVER_requires(SL_SOURCE_OK(source) && SL_SRC_WF)
 __CPROVER_requires(__CPROVER_w_ok(data, 1) && SL_SEP(data) && !__CPROVER_same_object(data, source))
-__CPROVER_assigns(SL_SRC_ASSIGNS, *data)
-__CPROVER_ensures(g_sl_src_pos >= __CPROVER_old(g_sl_src_pos) && g_sl_src_pos <= g_sl_src_len
-    && g_sl_src_pos - __CPROVER_old(g_sl_src_pos) <= 2)
-/* no driver failure */
-__CPROVER_ensures(IMPLIES(SL_SRC_NOERR_O && SL_S(__CPROVER_old(g_sl_src_pos)) == SLIP_END,
-    __CPROVER_return_value == 0 && g_sl_src_pos == __CPROVER_old(g_sl_src_pos) + 1))
-__CPROVER_ensures(IMPLIES(SL_SRC_NOERR_O && !SLIP_SPECIAL(SL_S(__CPROVER_old(g_sl_src_pos))),
-    __CPROVER_return_value == 1 && g_sl_src_pos == __CPROVER_old(g_sl_src_pos) + 1
-    && *data == SL_S(__CPROVER_old(g_sl_src_pos))))
-__CPROVER_ensures(IMPLIES(SL_SRC_NOERR_O && SL_S(__CPROVER_old(g_sl_src_pos)) == SLIP_ESC,
-    g_sl_src_pos == __CPROVER_old(g_sl_src_pos) + 2))
-__CPROVER_ensures(IMPLIES(SL_SRC_NOERR_O && SL_S(__CPROVER_old(g_sl_src_pos)) == SLIP_ESC
-    && SLIP_ESC_VALID(SL_S(__CPROVER_old(g_sl_src_pos) + 1)),
-    __CPROVER_return_value == 2 && *data == SLIP_UNESC(SL_S(__CPROVER_old(g_sl_src_pos) + 1))))
-__CPROVER_ensures(IMPLIES(SL_SRC_NOERR_O && SL_S(__CPROVER_old(g_sl_src_pos)) == SLIP_ESC
-    && !SLIP_ESC_VALID(SL_S(__CPROVER_old(g_sl_src_pos) + 1)),
-    __CPROVER_return_value == -EILSEQ && *data == SL_S(__CPROVER_old(g_sl_src_pos) + 1)))
-/* driver failure: exactly one, returned unchanged */
+__CPROVER_assigns(SL_SRC_ASSIGNS, SL_GEN_ASSIGNS, *data)
+__CPROVER_ensures(g_sl_src_pos >= SL_SRC_P0 && SL_SRC_TOOK <= 2 && SL_SRC_WF && SL_GEN_PROGRESS_O)
 __CPROVER_ensures(SL_SRC_NOERR_O || SL_SRC_ERR_O(__CPROVER_return_value))
+/* in terms of the octets delivered (either source mode) */
+__CPROVER_ensures(IMPLIES(SL_SRC_NOERR_O && __CPROVER_return_value == 0, SL_SRC_TOOK == 1 && g_sl_src_last == SLIP_END))
+__CPROVER_ensures(IMPLIES(SL_SRC_NOERR_O && __CPROVER_return_value > 0,
+    SL_SRC_TOOK == (size_t)__CPROVER_return_value && __CPROVER_return_value <= 2 && g_sl_src_last != SLIP_END))
+__CPROVER_ensures(IMPLIES(SL_SRC_NOERR_O && __CPROVER_return_value < 0,
+    __CPROVER_return_value == -EILSEQ && SL_SRC_TOOK == 2 && *data == g_sl_src_last && !SLIP_ESC_VALID(g_sl_src_last)))
 __CPROVER_ensures(IMPLIES(!SL_SRC_NOERR_O,
-    __CPROVER_return_value < 0 && *data == 0
-    && (g_sl_src_pos == __CPROVER_old(g_sl_src_pos)
-        || (g_sl_src_pos == __CPROVER_old(g_sl_src_pos) + 1 && SL_S(__CPROVER_old(g_sl_src_pos)) == SLIP_ESC))))
+    __CPROVER_return_value < 0 && *data == 0 && SL_SRC_TOOK <= 1 && IMPLIES(SL_SRC_TOOK == 1, g_sl_src_last == SLIP_ESC)))
+__CPROVER_ensures(IMPLIES(SL_SRC_TOOK == 0, g_sl_src_last == __CPROVER_old(g_sl_src_last)))
+/* array mode: in terms of the stream content, p the position at entry */
+__CPROVER_ensures(IMPLIES(!g_gn_on, g_sl_src_pos <= g_sl_src_len))
+__CPROVER_ensures(IMPLIES(!g_gn_on && SL_SRC_NOERR_O && SL_S_IS(SL_SRC_P0, SLIP_END), __CPROVER_return_value == 0))
+__CPROVER_ensures(IMPLIES(!g_gn_on && SL_SRC_NOERR_O && SL_S_PLAIN(SL_SRC_P0),
+    __CPROVER_return_value == 1 && SL_S_IS(SL_SRC_P0, *data)))
+__CPROVER_ensures(IMPLIES(!g_gn_on && SL_SRC_NOERR_O && SL_S_IS(SL_SRC_P0, SLIP_ESC) && SL_S_VALID2(SL_SRC_P0 + 1),
+    __CPROVER_return_value == 2 && *data == SLIP_UNESC(g_sl_src[SL_CLI(SL_SRC_P0 + 1, g_sl_src_len)])))
+__CPROVER_ensures(IMPLIES(!g_gn_on && SL_SRC_NOERR_O && SL_S_IS(SL_SRC_P0, SLIP_ESC) && SL_S_INVALID2(SL_SRC_P0 + 1),
+    __CPROVER_return_value == -EILSEQ && SL_S_IS(SL_SRC_P0 + 1, *data)))
+__CPROVER_ensures(IMPLIES(!g_gn_on && SL_SRC_NOERR_O, SL_SRC_P0 < g_sl_src_len
+    && IMPLIES(SL_S_IS(SL_SRC_P0, SLIP_ESC), SL_SRC_P0 + 1 < g_sl_src_len && SL_SRC_TOOK == 2)))
+__CPROVER_ensures(IMPLIES(!g_gn_on && SL_SRC_TOOK == 1 && !SL_SRC_NOERR_O, SL_S_IS(SL_SRC_P0, SLIP_ESC)))
+__CPROVER_ensures(IMPLIES(!g_gn_on, SL_GEN_SAME_O))
+/* generator mode, at the image of payload octet i: decode_octet o esc = id */
+__CPROVER_ensures(IMPLIES(SL_GEN_AT_PAYLOAD_O && SL_SRC_NOERR_O && __CPROVER_old(g_gn_i) < g_gn_n,
+    __CPROVER_return_value == (int)SLIP_ESCLEN(SL_GN_PAY(__CPROVER_old(g_gn_i))) && *data == SL_GN_PAY(__CPROVER_old(g_gn_i))
+    && g_gn_i == __CPROVER_old(g_gn_i) + 1 && g_gn_s == 0 && !g_gn_done && g_gn_c == __CPROVER_old(g_gn_c)))
+__CPROVER_ensures(IMPLIES(SL_GEN_AT_PAYLOAD_O && SL_SRC_NOERR_O && __CPROVER_old(g_gn_i) == g_gn_n,
+    __CPROVER_return_value == 0 && g_gn_done && g_gn_i == g_gn_n && g_gn_s == 0 && g_gn_c == __CPROVER_old(g_gn_c)))
+__CPROVER_ensures(IMPLIES(SL_GEN_AT_PAYLOAD_O && !SL_SRC_NOERR_O,
+    g_gn_i == __CPROVER_old(g_gn_i) && g_gn_s <= 1 && !g_gn_done && g_gn_c == __CPROVER_old(g_gn_c)))
 ;
 
 /* transition: consumes one octet and tells whether it is the delimiter */
 static inline int transition(Source *source)
 __CPROVER_requires(SL_SOURCE_OK(source) && SL_SRC_WF)
-__CPROVER_assigns(SL_SRC_ASSIGNS)
-__CPROVER_ensures(IMPLIES(SL_SRC_NOERR_O,
-    g_sl_src_pos == __CPROVER_old(g_sl_src_pos) + 1 && g_sl_src_pos <= g_sl_src_len
-    && __CPROVER_return_value == (SL_S(__CPROVER_old(g_sl_src_pos)) == SLIP_END ? 1 : 0)))
+__CPROVER_assigns(SL_SRC_ASSIGNS, SL_GEN_ASSIGNS)
 __CPROVER_ensures(SL_SRC_NOERR_O || SL_SRC_ERR_O(__CPROVER_return_value))
+__CPROVER_ensures(SL_SRC_WF && g_sl_src_pos >= SL_SRC_P0 && SL_GEN_PROGRESS_O)
+__CPROVER_ensures(IMPLIES(SL_SRC_NOERR_O,
+    g_sl_src_pos == SL_SRC_P0 + 1 && __CPROVER_return_value == (g_sl_src_last == SLIP_END ? 1 : 0)))
 __CPROVER_ensures(IMPLIES(!SL_SRC_NOERR_O,
-    __CPROVER_return_value < 0 && g_sl_src_pos == __CPROVER_old(g_sl_src_pos)))
+    __CPROVER_return_value < 0 && g_sl_src_pos == SL_SRC_P0 && g_sl_src_last == __CPROVER_old(g_sl_src_last) && SL_GEN_SAME_O))
+/* array mode */
+__CPROVER_ensures(IMPLIES(!g_gn_on && SL_SRC_NOERR_O, SL_S_IS(SL_SRC_P0, g_sl_src_last)))
+__CPROVER_ensures(IMPLIES(!g_gn_on, g_sl_src_pos <= g_sl_src_len && SL_GEN_SAME_O))
+/* generator mode, in front of the payload: garbage is not a delimiter, then
+ * come the delimiter that ends it and the start delimiter */
+__CPROVER_ensures(IMPLIES(g_gn_on && SL_SRC_NOERR_O && __CPROVER_old(g_gn_c) < SL_GN_PRE,
+    g_gn_c == __CPROVER_old(g_gn_c) + 1 && g_gn_i == 0 && g_gn_s == 0 && !g_gn_done
+    && __CPROVER_return_value == ((g_gn_skip && __CPROVER_old(g_gn_c) < g_gn_g) ? 0 : 1)))
 ;
 
 #include "contracts/rfc1055-frame.h"
